@@ -429,3 +429,30 @@ PROPS["C17"] = {
     "env": {},
     "design_ref": "DESIGN.md section 3, C17",
 }
+
+PROPS["C20"] = {
+    "engine": "c20",
+    "level": "exploration",
+    "technique": "multi-thread stress of real resource threads (ResourceRunner::spawn_with_shared, 2-4 per trial) with conservation / paired-variable / torn-read monitors on the shared store (online monotone bracket checks from an observer thread, exact checks at provably quiescent points), an in-order command sentinel deciding cycles-while-paused, a join watchdog, a recording retain store and planted faults",
+    "quick": {"shards": 8, "budget_s": 25, "watchdog_s": 600},
+    "thorough": {"shards": 16, "budget_s": 600, "watchdog_s": 3000},
+    "floor": {"quick": 800, "thorough": 20000},
+    "require_counters": {"quick": {"cycles_executed": 1000000, "pause_episodes_verified_cycle_free": 5000, "resumes_followed_by_a_cycle": 1500, "stops_verified": 2500, "stops_at_closed_gate": 300,
+                                   "quiescent_conservation_checks": 4000, "online_bracket_checks": 5000000, "samples_with_two_resources_advancing": 20000, "faults_isolated": 200},
+                         "thorough": {"cycles_executed": 20000000, "stops_verified": 60000}},
+    "rule": "trial = N in 2..4 resources, each with interval {0 (free running), 1 ms}, own or common ManualClock, start gate (1/4), spin between the paired writes {0,3,30}, at most one resource "
+            "with a planted division by zero at its k-th cycle (k in 0..40); controller script of 10-60 ops from {advance a clock 1-4 ms, pause, resume, open gate, stop via handle / via control, "
+            "sleep 1us-1ms, quiesce}; remaining resources are stopped in random order at the end. distinct = (trial, observed outcome sequence); non-trivial = the observer saw >= 2 resources "
+            "advance within one sampling interval (true overlap) and >= 1 stop was fully verified",
+    "level_text": "Shared store: every cycle does a++ ; spin ; total++ ; b++ ; cnt_i++ and counts cycles that start with a <> b. Exact check when every live resource is provably paused or stopped: "
+                  "total = sum cnt_i, a = b = total, torn = 0. Online, from a third thread using only SharedGlobals::get: sum(cnt before) <= total <= sum(cnt after), a1 <= b <= a2, nothing "
+                  "decreases. Pause: after Pause + an answered in-order Snapshot sentinel the state must be Paused and cnt_i must not change until the monitor itself sends Resume. Resume: state "
+                  "Running and a further cycle within the watchdog. Stop (from Running, Paused, sleeping on the clock, waiting at the gate): join returns, state Stopped, exactly one retain "
+                  "store call whose keepg equals the cycles executed (0 or 1 calls for a resource that never passed its gate). Fault: the faulting resource never cycles past its fault, another "
+                  "running resource does cycle afterwards, no resource thread panics.",
+    "level_note": "Interleavings are those the OS scheduler produces under the perturbations, not all. 10-15 s watchdogs guard operations that need microseconds. The single-resource loop "
+                  "(run_resource_loop without shared globals) has the same command/stop structure and is not driven separately. StdClock/ScaledClock resources are not driven.",
+    "assumptions": ["SharedGlobals::get and ResourceControl::state are the observation boundary", "ResourceCommand::Snapshot is answered in command order (it is handled in the same drain loop)"],
+    "env": {},
+    "design_ref": "DESIGN.md section 3, C20",
+}
